@@ -354,7 +354,9 @@ def entropy_kernels(prog):
                     cb, ups = closure_of(prog, m[3][1])
                     ret, upd = closure_terms(prog, cb, {2: ("sym", "x")})
                     val = ("neg", ret)
-                    out["entropy"] = dict(term=ret, root=root, closure=cb, negated=True, producers_ok=True)
+                    me = ds(tb.call_expr(bb))
+                    svs = [ds(v) for _, v in success_values(tb)]
+                    out["entropy"] = dict(term=ret, root=root, closure=cb, negated=bool(svs) and all(v == me for v in svs), producers_ok=True)
     for name in ("kl_divergence", "cross_entropy"):
         root = prog.method("EntropyExt", name)
         zf = zip_foreach(prog, root)
@@ -385,14 +387,15 @@ def entropy_kernels(prog):
         fresh = isinstance(temp, tuple) and temp[0] == "call" and temp[1] == "zeros" and ds(temp[3][0])[0] == "call" and \
             ds(temp[3][0])[1] == "raw_dim" and ds(ds(temp[3][0])[3][0])[:2] == ("param", 1)
         p_ok = fresh and ds(prods[1])[:2] == ("param", 1) and ds(prods[2])[:2] == ("param", 2)
-        # result = -sum(temp)
-        r = ds(root.return_expr())
-        negsum = False
-        for cbb, ct in root.calls():
-            if callee_name(ct) == "neg":
-                s = ds(root.call_arg_exprs(cbb)[0])
-                if s[0] == "call" and s[1] == "sum" and ds(s[3][0]) == temp:
-                    negsum = True
+        # result = -sum(temp): EVERY success value of the routine must be that expression (no clamping, no second formula)
+        svs = [ds(v) for _, v in success_values(root)]
+        negsum = bool(svs)
+        for v in svs:
+            okv = isinstance(v, tuple) and v[0] == "call" and v[1] == "neg" and v[3]
+            if okv:
+                s = ds(v[3][0])
+                okv = isinstance(s, tuple) and s[0] == "call" and s[1] == "sum" and ds(s[3][0]) == temp
+            negsum = negsum and okv
         out[name] = dict(term=term, root=root, closure=cb, negated=negsum, producers_ok=p_ok)
     return out
 
